@@ -28,39 +28,67 @@ EXTENDS Integers, Sequences, FiniteSets, TLC
 CONSTANTS MaxAge, MaxN, Threads, Dev
 
 Ages == 1..MaxAge
-VARIABLE s
+(* type annotations are for Apalache (specs/apalache/MC_Lifecycle.tla); TLC ignores them
+   @typeAlias: state = { m: Str, n: Int, age: Int, w: Int -> Str, req: Int -> Int, sig: Int -> Str, exec: Bool }; *)
+LifecycleAliases == TRUE
+VARIABLE
+  \* @type: $state;
+  s
 S0 == [m |-> "new", n |-> -1, age |-> 0, w |-> [a \in Ages |-> "none"], req |-> [a \in Ages |-> 0],
        sig |-> [a \in Ages |-> "none"], exec |-> FALSE]
 
+\* @type: ($state) => Set(Int);
 Unreaped(x) == {a \in Ages : x.w[a] \in {"pre", "forked", "init", "wexit", "gone"}}
+\* @type: ($state) => Set(Int);
 Alive(x) == {a \in Ages : x.w[a] \in {"pre", "forked", "init"}}
+\* @type: ($state) => Bool;
 Serving(x) == x.m \in {"ready", "reloading"}
 
 (* ---- master ---- *)
+\* @type: ($state, Int) => $state;
 Setup(x, k) == [x EXCEPT !.m = "configured", !.n = k]                 \* nworkers_changed(k, None)
+\* @type: ($state) => $state;
 OnStarting(x) == [x EXCEPT !.m = "starting"]
+\* @type: ($state) => $state;
 WhenReady(x) == [x EXCEPT !.m = "ready"]
+\* @type: ($state) => $state;
 PreFork(x) == [x EXCEPT !.age = @ + 1, !.w[x.age + 1] = "pre"]
+\* @type: ($state, Int) => $state;
 Resize(x, k) == [x EXCEPT !.n = k]                                    \* TTIN / TTOU: nworkers_changed(k, n)
+\* @type: ($state, Int) => $state;
 Reconfigured(x, k) == [x EXCEPT !.m = "reloading", !.n = k]           \* HUP: reload -> setup: nworkers_changed(k, n), also when k = n
+\* @type: ($state) => $state;
 OnReload(x) == [x EXCEPT !.m = "ready"]                               \* ... then on_reload, then the new workers
+\* @type: ($state) => $state;
 PreExec(x) == [x EXCEPT !.exec = TRUE]
+\* @type: ($state, Int) => $state;
 ChildExit(x, a) == [x EXCEPT !.w[a] = "reaped"]
+\* @type: ($state) => $state;
 Halt(x) == [x EXCEPT !.m = "halting"]                                 \* TERM / INT / QUIT (no hook)
+\* @type: ($state) => $state;
 OnExit(x) == [x EXCEPT !.m = "exited"]
 (* ---- worker a ---- *)
+\* @type: ($state, Int) => $state;
 PostFork(x, a) == [x EXCEPT !.w[a] = "forked"]
+\* @type: ($state, Int) => $state;
 PostInit(x, a) == [x EXCEPT !.w[a] = "init"]
+\* @type: ($state, Int) => $state;
 PreRequest(x, a) == [x EXCEPT !.req[a] = @ + 1]
+\* @type: ($state, Int) => $state;
 PostRequest(x, a) == [x EXCEPT !.req[a] = @ - 1]
+\* @type: ($state, Int, Str) => $state;
 Signalled(x, a, g) == [x EXCEPT !.sig[a] = g]                         \* worker_int (INT / QUIT) / worker_abort (ABRT)
+\* @type: ($state, Int) => $state;
 WorkerExit(x, a) == [x EXCEPT !.w[a] = "wexit"]
+\* @type: ($state, Int) => $state;
 Killed(x, a) == [x EXCEPT !.w[a] = "gone"]                            \* SIGKILL, or a crash below Python: no hook
 
+\* @type: ($state) => Bool;
 CanFork(x) == /\ (x.m = "ready" \/ ("ForkBeforeReady" \in Dev /\ x.m = "starting"))
               /\ x.age < MaxAge
               \* manage_workers spawns while fewer than n are registered; a reload spawns n more before it retires the old
               /\ Cardinality(Unreaped(x)) < 2 * MaxN
+\* @type: ($state, Int) => Bool;
 CanChildExit(x, a) == /\ x.m \in {"ready", "reloading", "halting"}
                       /\ (x.w[a] \in {"wexit", "gone"} \/ ("ChildExitForLiving" \in Dev /\ x.w[a] = "init"))
 
